@@ -51,8 +51,11 @@ def _is(c, names):
 
 
 class VecEffects(Effects):
+    # equivalent std APIs of vocabulary entries: `DirBuilder::new().recursive(true).create(p)` is `create_dir_all(p)`
+    MORE_VOCAB = {'std::fs::DirBuilder::create': ('MKDIR', 1)}
+
     def __init__(self, prog, slicer, vocab=None, max_depth=10):
-        Effects.__init__(self, prog, slicer, vocab, max_depth)
+        Effects.__init__(self, prog, slicer, dict(self.MORE_VOCAB, **(vocab or {})), max_depth)
         self._grown = {}
         self._drained = {}
         self._psw, self._specs, self._pc, self._spec_stack = {}, {}, {}, []
@@ -265,10 +268,26 @@ class VecEffects(Effects):
         """alternatives [(element, forall, filtered)] of loop L when its collection local was appended to before the loop
         (None: nothing appended, the plain collection value says it all)"""
         key = (fn.path, L.header)
-        if key in self._grown:
-            return self._grown[key]
-        self._grown[key] = None
-        locs = set(self._iterated_locals(fn, L.next_call))
+        if key not in self._grown:
+            self._grown[key] = None
+            self._grown[key] = self._grown_from(fn, L.next_call, L.header, L.body, L.collection)
+        return self._grown[key]
+
+    def grown_alts_consumer(self, fn, c):
+        """the same for an iterator consumer called directly on (an `iter()` / `into_iter()` of) a Vec local that was
+        appended to before: `files.iter().try_for_each(|f| remove(f))` visits what `for f in &files { remove(f)? }` visits"""
+        key = (fn.path, 'consumer', c.bb)
+        if key not in self._grown:
+            self._grown[key] = None
+            if c.args and not fn.in_loop(c.bb):
+                self._grown[key] = self._grown_from(fn, c, c.bb, {c.bb}, self.slicer.operand(fn, c.args[0]))
+        return self._grown[key]
+
+    def _grown_from(self, fn, user, user_bb, body, base):
+        """`user`: the call whose first argument is the iterator (the loop's `next`, a consumer); `body`: blocks that run
+        per element (appends there are not appends *before* the iteration); `base`: the collection value as lib.value
+        sees it (initial value of the Vec)"""
+        locs = set(self._iterated_locals(fn, user))
         if not locs:
             return None
         refs = _mut_ref_targets(fn)
@@ -280,21 +299,27 @@ class VecEffects(Effects):
             pl = op_place(c.args[0])
             if not (pl and len(pl) == 1 and refs.get(pl[0]) in locs):
                 continue
-            if c.bb in L.body or L.header not in fn.reachable(c.bb):
+            if c.bb in body or user_bb not in fn.reachable(c.bb):
                 continue
             segs.append(c)
         if not segs:
             return None
         sl = self.slicer
-        base = L.collection
         b0 = strip(base) if base is not None else None
-        if b0 is not None and b0[0] == 'call' and b0[1].endswith(FRESH) and not b0[2]:
-            al = []
+        for _ in range(6):
+            # `xs.iter()` / `xs.into_iter()` / `&mut it`: the elements of xs
+            if b0 is not None and b0[0] == 'call' and len(b0[2]) == 1 and iters._is_source(b0[1]) and b0[1].endswith(iters.SAME_ELEMS):
+                b0 = strip(b0[2][0])
+            else:
+                break
+        if b0 is not None and b0[0] == 'call' and b0[1].startswith(('std::', 'alloc::')) and \
+                ((b0[1].endswith(FRESH) and not b0[2]) or b0[1].endswith('::with_capacity')):
+            al = []      # `Vec::new()` / `Vec::with_capacity(n)`: no elements yet, whatever the reserved capacity
         else:
             al = list(iters.alts(sl, base))
         for c in segs:
             v = sl.operand(fn, c.args[1])
-            always = fn.dominates(c.bb, L.header)
+            always = fn.dominates(c.bb, user_bb)
             outer = [l for l in self.loops(fn) if c.bb in l.body and c.bb != l.header]
             if outer:
                 # appended inside an earlier loop: one element per visited element of that loop
@@ -308,8 +333,23 @@ class VecEffects(Effects):
                 al.append((v, None, not always))
             else:
                 al.extend((e, f, fl or not always) for e, f, fl in iters.alts(sl, v))
-        self._grown[key] = al
         return al
+
+    EACH = (iters.IT + 'try_for_each', iters.IT + 'for_each')
+
+    def _expand_iter(self, fn, c, forall, mode, mapping, chain, stack, out):
+        if c.decl in self.EACH and len(c.args) == 2 and forall is None:
+            al = self.grown_alts_consumer(fn, c)
+            if al is not None:
+                if mode == 'must' and self._short_circuits(fn, c):
+                    return True
+                clv = self.slicer.operand(fn, c.args[1])
+                for elem, fa, filtered in al:
+                    if filtered and mode == 'must':
+                        continue
+                    self._expand_closure(fn, c, clv, [elem], fa, mode, mapping, chain, stack, out)
+                return True
+        return Effects._expand_iter(self, fn, c, forall, mode, mapping, chain, stack, out)
 
     def _loop_around(self, fn, c):
         best = None
@@ -324,6 +364,24 @@ class VecEffects(Effects):
         if best is not None and self.grown_alts(fn, best) is not None:
             return best.collection
         return Effects._unrollable(self, fn, c)
+
+    FN_CALL = ('std::ops::Fn::call', 'std::ops::FnMut::call_mut', 'std::ops::FnOnce::call_once')
+
+    def _expand_call1(self, fn, c, forall, mode, mapping, chain, stack, out):
+        # `let step = |x| routine(dir, x); step(a)?`: calling a closure that is a known workspace closure / fn item is
+        # calling its body with the arguments bound (lib.effects reports every `Fn::call` as an opaque CALLBACK)
+        if not c.indirect and c.decl in self.FN_CALL and len(c.args) == 2:
+            for clv in (self.slicer.operand(fn, c.args[0]), self.subst(self.slicer.operand(fn, c.args[0]), mapping)):
+                clv = strip(clv)
+                g, off = self._closure_fn(clv)
+                if g is None or g.path in stack:
+                    continue
+                av = self.slicer.operand(fn, c.args[1])
+                if av[0] != 'tuple':
+                    break
+                self._expand_closure(fn, c, clv, list(av[1])[:max(g.argc - off, 0)], forall, mode, mapping, chain, stack, out)
+                return
+        Effects._expand_call1(self, fn, c, forall, mode, mapping, chain, stack, out)
 
     def _expand_call(self, fn, c, forall, mode, mapping, chain, stack, out):
         if forall is not None:
@@ -419,26 +477,28 @@ def outcomes_ctx(E, fn, mapping=None, chain=(), stack=()):
     return res
 
 
-def lifted_args_ctx(E, call, crate=None, depth=3, stop_at=()):
+def lifted_args_ctx(E, call, crate=None, depth=3, stop_at=(), with_path=False):
     """lib.tables.lifted_args, with the values re-expressed at a caller read under that caller's arguments: merged values
-    keep only the alternatives of the arms the caller's literal switches select.  [(top Fn, top call site, [values])]"""
+    keep only the alternatives of the arms the caller's literal switches select.  [(top Fn, top call site, [values])];
+    with_path=True adds the call sites passed on the way up ([the call itself, .., the top call site]) so that the
+    decisions around *each* of them can be read (the `match` on the strategy may sit at any level)"""
     from .lib.value import walk
     prog, sl = E.prog, E.slicer
     callers = prog.callers()
 
-    def go(f, site, vals, d):
+    def go(f, site, vals, d, path):
         has_param = any(x[0] == 'param' and x[1] == f.path for v in vals for x in walk(v))
         css = [cs for cs in callers.get(f.path, []) if not cs.indirect and cs.name == f.path and cs.fn.path != f.path
                and (crate is None or cs.fn.crate == crate)]
         if not has_param or not css or d >= depth or f.vis == 'pub' or f.path in stop_at:
-            return [(f, site, vals)]
+            return [(f, site, vals, path) if with_path else (f, site, vals)]
         out = []
         for cs in css:
             m = {(f.path, i): sl.operand(cs.fn, a) for i, a in enumerate(cs.args)}
-            out.extend(go(cs.fn, cs, [E.subst(v, m) for v in vals], d + 1))
+            out.extend(go(cs.fn, cs, [E.subst(v, m) for v in vals], d + 1, path + [cs]))
         return out
     f = call.fn
-    return go(f, call, [sl.operand(f, a) for a in call.args], 0)
+    return go(f, call, [sl.operand(f, a) for a in call.args], 0, [call])
 
 
 # ---- drained work-lists ----------------------------------------------------------------------------------------------
@@ -717,6 +777,52 @@ def _add_drained(E, fn, d, out, mapping, chain, stack):
     return out[:cut] + extra + out[cut:]
 
 
+def entries_scope(E, f, v):
+    """layer_env_common._entries_scope (which delta of `self` does value v range over: 'all' | 'build' | 'launch' |
+    'process[*]'), also when the delta's entries are reached through a private function of the delta that ranges over them
+    (`for (name, value) in delta.planned_files()`: plan first, write afterwards)"""
+    from . import layer_env_common as L
+    scope, coll = L._entries_scope(f, v)
+    if scope is not None:
+        return scope, coll
+    prog = E.prog
+    for x in _walk(v):
+        if not (x[0] == 'call' and x[1] in prog.fns and x[2]):
+            continue
+        g = prog.fns[x[1]]
+        if g.kind == 'Closure' or g.path == f.path:
+            continue
+        for i, a in enumerate(x[2][:g.argc]):
+            if not _ranges_over_entries(E, g, i):
+                continue
+            owner = strip(a)
+            fld = L.self_field(f, owner)
+            if fld is not None:
+                return fld, None
+            c2, proj = L.loop_element(owner)
+            if c2 is not None and L.self_field(f, c2) is not None and proj == ('1',):
+                return L.self_field(f, c2) + '[*]', c2
+    return None, None
+
+
+def _ranges_over_entries(E, g, i):
+    """does private function g iterate over `<parameter i>.entries` (a loop or an iterator pipeline over that map)?"""
+    key = ('roe', g.path, i)
+    cache = E.__dict__.setdefault('_roe', {})
+    if key not in cache:
+        def of_param(v):
+            return any(y[0] == 'field' and y[2] == 'entries' and strip(y[1])[0] == 'param' and strip(y[1])[1] == g.path and strip(y[1])[2] == i
+                       for y in _walk(v))
+        hit = any(L_.collection is not None and of_param(L_.collection) for L_ in E.loops(g))
+        if not hit:
+            for c in g.calls:
+                if not c.indirect and (c.decl or '').startswith('std::iter::') and c.args and of_param(E.slicer.operand(g, c.args[0])):
+                    hit = True
+                    break
+        cache[key] = hit
+    return cache[key]
+
+
 def writer_scope_table(prog, sl):
     """layer_env_common.writer_scope_table (scope -> directory components, from the WRITE effects of write_to_layer_dir)
     on VecEffects: rows of a (dir, delta) table that are appended to the table (`push`, `extend(map over self.process)`)
@@ -732,10 +838,10 @@ def writer_scope_table(prog, sl):
         if e.kind != 'WRITE' or e.path is None:
             continue
         cs = L.comps(e.path, root)
-        scope, coll = L._entries_scope(f, e.path)
+        scope, coll = entries_scope(E, f, e.path)
         if scope is None and e.args:
             for a in e.args[1:]:
-                scope, coll = L._entries_scope(f, a)
+                scope, coll = entries_scope(E, f, a)
                 if scope is not None:
                     break
         dirs = None
@@ -1024,6 +1130,145 @@ def optional_conditions(E, fn, bb):
     return out
 
 
+def delete_role(E, roles, hl):
+    """the routine that deletes a layer, validated on what it *does*: a libcnb function f(layers_dir, name) -> Result<(), _>
+    whose certain effects remove <layers_dir>/<name> and <layers_dir>/<name>.toml.  layer_roles finds it by a literal
+    `remove_file(..<name>.toml..)` in its body; when the paths are planned into a Vec first that lands on another
+    function (the shared reader also drops a stale TOML), so the discovered role is checked and, if it fails, searched
+    again among the functions the handler reaches."""
+    from .lib.effects import REMOVING
+    from .lib.paths import LayerPaths
+    prog = E.prog
+
+    def is_deleter(f):
+        if f is None or f.kind == 'Closure' or f.argc < 2 or not f.ret.startswith('std::result::Result<(), '):
+            return False
+        lp = LayerPaths(lambda v: v[0] == 'param' and v[1] == f.path and v[2] == 0, lambda v: v[0] == 'param' and v[1] == f.path and v[2] == 1)
+        ks = {lp.classify(e.path) for e in E.expand(f, 'must') if e.kind in REMOVING and e.path is not None}
+        return ('TOML',) in ks and ('DIR',) in ks
+    cur = prog.fns.get(roles.get('DELETE') or '')
+    if is_deleter(cur):
+        return cur.path
+    cands = [f.path for f in prog.reach([hl]).values() if f.crate == 'libcnb' and is_deleter(f)]
+    return cands[0] if len(cands) == 1 else roles.get('DELETE')
+
+
+def _is_empty_env_name(n):
+    return n == 'std::default::Default::default' or (n.endswith(('::new', '::default')) and '::LayerEnv' in n)
+
+
+def _is_empty_env(v):
+    """`LayerEnv::new()` / `LayerEnv::default()` / `Default::default()` (where a LayerEnv is expected): new() is default()"""
+    v = strip(v)
+    return v[0] == 'call' and not v[2] and _is_empty_env_name(v[1])
+
+
+def env_or_default(sl, v):
+    """(X, verdict) for a written env value v that is "the payload of the Option X, an empty LayerEnv when X is None",
+    whichever way it is spelled: `X.unwrap_or_default()`, `X.unwrap_or_else(LayerEnv::new)` / a closure returning an
+    empty env, `X.unwrap_or(LayerEnv::new())`, `X.map_or_else(LayerEnv::new, |e| e)`, `match X { Some(e) => e, None =>
+    LayerEnv::new() }` / `if let`.
+      'ok'             v is of that form
+      'other-default'  the alternative used when X is None is not an empty env (e.g. the previous env)
+      'unguarded'      a merge of X's payload and an empty env, but the empty one is not built under `X is None` only
+      'shape'          anything else (X is None)"""
+    from .lib.guards import conditions
+    v = strip(v)
+    if v[0] == 'call' and v[2] and v[1].startswith('std::option::Option::'):
+        n, a = v[1], v[2]
+        if n.endswith('::unwrap_or_default') and len(a) == 1:
+            return a[0], 'ok'
+        if n.endswith('::unwrap_or') and len(a) == 2:
+            return a[0], ('ok' if _is_empty_env(a[1]) else 'other-default')
+        if (n.endswith('::unwrap_or_else') and len(a) == 2) or (n.endswith('::map_or_else') and len(a) == 3):
+            d = a[1]
+            if n.endswith('::map_or_else'):
+                # the Some closure must hand its argument through
+                r = sl.apply_closure(a[2], (('unknown', 'payload'),)) if a[2][0] in ('closure', 'fnitem') else None
+                if r is None or strip(r) != ('unknown', 'payload'):
+                    return None, 'shape'
+            if d[0] == 'fnitem':
+                return a[0], ('ok' if _is_empty_env_name(d[1]) else 'other-default')
+            if d[0] == 'closure':
+                r = sl.apply_closure(d, ())
+                if r is not None:
+                    return a[0], ('ok' if _is_empty_env(r) else 'other-default')
+            return None, 'shape'
+    if v[0] == 'phi' and len(v[1]) == 2:
+        empties = [x for x in v[1] if _is_empty_env(x)]
+        pays = [x for x in v[1] if x[0] == 'unwrap']
+        if len(pays) == 1 and len(empties) == 1:
+            X = pays[0][1]
+            e = strip(empties[0])
+            g = sl.prog.fns.get(e[3][0]) if len(e) == 4 and e[3] else None
+            if g is not None:
+                for cd in conditions(g, e[3][1], sl):
+                    if cd.kind == 'variant' and cd.enum == 'std::option::Option' and cd.outcome == frozenset({'None'}) and \
+                            cd.subject is not None and _same_projection(cd.subject, X):
+                        return X, 'ok'
+            return X, 'unguarded'
+        if len(pays) == 1 and len(v[1]) == 2:
+            return pays[0][1], 'other-default'
+    return None, 'shape'
+
+
+def _same_projection(a, b):
+    """both values are the same field of the result of the same call site (the same expression seen from the function
+    that contains it and from a caller it was lifted to: parameters differ, call sites do not)"""
+    a, b = strip(a), strip(b)
+    while a[0] == 'field' and b[0] == 'field' and a[2] == b[2]:
+        a, b = strip(a[1]), strip(b[1])
+    return a[0] == 'call' and b[0] == 'call' and a[1] == b[1] and len(a) == 4 and len(b) == 4 and a[3] is not None and a[3] == b[3]
+
+
+def top_calls(v, name, opaque=()):
+    """the distinct calls of `name` in v that are not (part of) an argument of another call of `name` / of an opaque or
+    workspace function: in `read(dir, read(dir, n).name)` only the outer call is what the value *is* (std combinators
+    such as `ok_or(x, e)` / `map_err(x, f)` are looked through)"""
+    out = []
+
+    def go(x):
+        if not isinstance(x, tuple) or not x:
+            return
+        if x[0] == 'call':
+            if x[1] == name:
+                if x not in out:
+                    out.append(x)
+                return
+            if x[1] in opaque or not x[1].startswith(('std::', 'core::', 'alloc::')):
+                return      # what a user callback / an unopened workspace function makes of its arguments is not known
+        for y in x:
+            if isinstance(y, tuple):
+                go(y)
+    go(v)
+    return out
+
+
+def levels_to(o, name, site):
+    """the calls [entry level .. the call of `name` at `site` = (fn path, bb)] leading from the entry function of Outcome o
+    down to that call, read off the call chain of an effect that happens inside it; None when no effect of o does"""
+    for e in list(o.must) + list(o.may):
+        for i, l in enumerate(e.chain or ()):
+            if isinstance(l, Link) and l.call.name == name and (l.call.fn.path, l.call.bb) == site:
+                return [(x.call if isinstance(x, Link) else x) for x in e.chain[:i + 1]]
+    return None
+
+
+def optional_guards(E, e):
+    """lib.effects.guards_of(E, e) restricted to real choices (see optional_conditions): the decisions, at any level of the
+    call chain of effect e (and around the creation of a closure it runs in), under which e can be skipped while the
+    function taking the decision still succeeds"""
+    from .lib.effects import guards_of
+    out = []
+    for cd, views, subj in guards_of(E, e):
+        f = cd.fn
+        sites = {s.bb for s in E.sites(f)} or set(f.return_blocks())
+        others = [s for s in f.succs(cd.sw_bb) if s != cd.target]
+        if any((f.reachable(s) & sites) or s in sites for s in others):
+            out.append((cd, views, subj))
+    return out
+
+
 def peel_some(v):
     """`unwrap(Some(x))` / `unwrap(Ok(x))` / `unwrap(Some(x).filter(p))` -> x   (the payload, when there is one, is x)"""
     for _ in range(8):
@@ -1087,6 +1332,13 @@ def sbom_name_table(sl, f):
     `f(format, dir, name) = dir.join(<text built from name and a per-format literal>)`, or None when the result is not of
     that form (the directory must be the given one, the name one path component)"""
     v = strip(sl.inline_deep(sl.local(f, 0)))
+    if v[0] == 'concat' and f.ret == 'std::path::PathBuf':
+        # `let mut p = dir.to_path_buf(); p.push(name); p` is `dir.join(name)` (std defines join that way); the only
+        # appender of a PathBuf that lib.value folds into a concat is PathBuf::push
+        from .lib.value import concat_parts
+        parts = list(concat_parts(v))
+        if len(parts) == 2:
+            v = ('call', 'std::path::Path::join', (peel_views(parts[0]), parts[1]))
     if not (v[0] == 'call' and v[1] in ('std::path::Path::join', 'std::path::PathBuf::join') and len(v[2]) == 2) or f.argc != 3:
         return None
     d = strip(v[2][0])
